@@ -23,6 +23,8 @@ CONSTANTS Groups, Delayed,
           SuccChoices,   \* set of candidate request graphs [Items -> SUBSET Items]
           RootChoices,   \* set of candidate root maps [Groups -> SUBSET Items]
           FailChoices,   \* set of candidate sets of items whose handling fails
+          SoftChoices,   \* set of candidate sets of items whose handling reports an error but carries on
+                         \* (undefined symbols: report_error without dropping the worker)
           Racy           \* TRUE: deliberately broken variant - the empty test and the park are two steps
 
 VARIABLES loc, runner, atask, remaining, delayQ, scopeEnd,   \* as in GcProto
@@ -32,11 +34,11 @@ VARIABLES loc, runner, atask, remaining, delayQ, scopeEnd,   \* as in GcProto
           flagged,       \* items whose "requested" flag is set (the fetch_or dedup)
           done,          \* items handled
           errors,        \* sequence of failing items, in push order
-          succ, roots, failing,   \* the scenario, fixed in Init
+          succ, roots, failing, soft,   \* the scenario, fixed in Init
           sawEmpty       \* only used by the Racy variant
 
 vars == <<loc, runner, atask, remaining, delayQ, scopeEnd, slotWork, local, toSend, flagged, done,
-          errors, succ, roots, failing, sawEmpty>>
+          errors, succ, roots, failing, soft, sawEmpty>>
 
 NoTask == -1
 SpawnedTask == -2
@@ -57,6 +59,7 @@ Init ==
     /\ succ \in SuccChoices
     /\ roots \in RootChoices
     /\ failing \in FailChoices
+    /\ soft \in SoftChoices
     /\ sawEmpty = [g \in Groups |-> FALSE]
 
 Live(g) == loc[g] \in {"activating", "running"}
@@ -73,7 +76,7 @@ ActBegin(g) ==
     /\ loc' = [loc EXCEPT ![g] = "activating"]
     /\ toSend' = [toSend EXCEPT ![g] = roots[g]]
     /\ UNCHANGED <<runner, remaining, delayQ, scopeEnd, slotWork, local, flagged, done, errors,
-                   succ, roots, failing, sawEmpty>>
+                   succ, roots, failing, soft, sawEmpty>>
 
 (* The code running for g asks for item i.  The flag test-and-set deduplicates; a new request goes
    to the local queue or, through the owner's slot lock, to the owner (taking its parked worker). *)
@@ -91,7 +94,7 @@ Request(g, i) ==
                     /\ loc' = [loc EXCEPT ![Owner[i]] = IF @ = "parked" THEN "spawning" ELSE @]
                     /\ UNCHANGED local
     /\ UNCHANGED <<runner, atask, remaining, delayQ, scopeEnd, done, errors, succ, roots, failing,
-                   sawEmpty>>
+                   soft, sawEmpty>>
 
 ActEnd(g) ==
     /\ atask[g] = "activating"
@@ -107,7 +110,7 @@ ActEnd(g) ==
             /\ atask' = [atask EXCEPT ![g] = "working"]
             /\ UNCHANGED delayQ
     /\ UNCHANGED <<remaining, scopeEnd, slotWork, local, toSend, flagged, done, errors, succ, roots,
-                   failing, sawEmpty>>
+                   failing, soft, sawEmpty>>
 
 (* Pop an item and handle it: success makes its requests pending. *)
 TakeItem(g, i) ==
@@ -119,8 +122,9 @@ TakeItem(g, i) ==
     /\ done' = done \cup {i}
     /\ toSend' = [toSend EXCEPT ![g] = succ[i]]
     /\ sawEmpty' = [sawEmpty EXCEPT ![g] = FALSE]
-    /\ UNCHANGED <<loc, runner, atask, remaining, delayQ, scopeEnd, slotWork, flagged, errors,
-                   succ, roots, failing>>
+    /\ errors' = IF i \in soft THEN Append(errors, i) ELSE errors
+    /\ UNCHANGED <<loc, runner, atask, remaining, delayQ, scopeEnd, slotWork, flagged,
+                   succ, roots, failing, soft>>
 
 (* ... failure pushes the error and drops the GroupState (two steps at the protocol level: the pop
    and the drop; taken together here because nothing can observe the state in between). *)
@@ -135,7 +139,7 @@ TakeFail(g, i) ==
     /\ runner' = [runner EXCEPT ![g] = NoTask]
     /\ RunnerContinues(g)
     /\ UNCHANGED <<remaining, delayQ, scopeEnd, slotWork, toSend, flagged, done, succ, roots,
-                   failing, sawEmpty>>
+                   failing, soft, sawEmpty>>
 
 SlotPark(g) ==
     /\ loc[g] = "running"
@@ -147,7 +151,7 @@ SlotPark(g) ==
     /\ RunnerContinues(g)
     /\ sawEmpty' = [sawEmpty EXCEPT ![g] = FALSE]
     /\ UNCHANGED <<remaining, delayQ, scopeEnd, slotWork, local, toSend, flagged, done, errors,
-                   succ, roots, failing>>
+                   succ, roots, failing, soft>>
 
 (* Racy variant only: look at the slot without keeping the lock until the park. *)
 SlotPeek(g) ==
@@ -159,7 +163,7 @@ SlotPeek(g) ==
     /\ ~sawEmpty[g]
     /\ sawEmpty' = [sawEmpty EXCEPT ![g] = TRUE]
     /\ UNCHANGED <<loc, runner, atask, remaining, delayQ, scopeEnd, slotWork, local, toSend,
-                   flagged, done, errors, succ, roots, failing>>
+                   flagged, done, errors, succ, roots, failing, soft>>
 
 SlotSwap(g) ==
     /\ loc[g] = "running"
@@ -170,14 +174,14 @@ SlotSwap(g) ==
     /\ local' = [local EXCEPT ![g] = slotWork[g]]
     /\ slotWork' = [slotWork EXCEPT ![g] = {}]
     /\ UNCHANGED <<loc, runner, atask, remaining, delayQ, scopeEnd, toSend, flagged, done, errors,
-                   succ, roots, failing, sawEmpty>>
+                   succ, roots, failing, soft, sawEmpty>>
 
 TaskStart(g) ==
     /\ loc[g] = "spawning"
     /\ loc' = [loc EXCEPT ![g] = "running"]
     /\ runner' = [runner EXCEPT ![g] = SpawnedTask]
     /\ UNCHANGED <<atask, remaining, delayQ, scopeEnd, slotWork, local, toSend, flagged, done,
-                   errors, succ, roots, failing, sawEmpty>>
+                   errors, succ, roots, failing, soft, sawEmpty>>
 
 Dec(a) ==
     /\ atask[a] = "dec"
@@ -185,7 +189,7 @@ Dec(a) ==
     /\ remaining' = remaining - 1
     /\ atask' = [atask EXCEPT ![a] = IF remaining' = 0 THEN "drain" ELSE "done"]
     /\ UNCHANGED <<loc, runner, delayQ, scopeEnd, slotWork, local, toSend, flagged, done, errors,
-                   succ, roots, failing, sawEmpty>>
+                   succ, roots, failing, soft, sawEmpty>>
 
 DelayPop(a, d) ==
     /\ atask[a] = "drain"
@@ -196,14 +200,14 @@ DelayPop(a, d) ==
     /\ runner' = [runner EXCEPT ![d] = a]
     /\ atask' = [atask EXCEPT ![a] = "workingDelayed"]
     /\ UNCHANGED <<remaining, scopeEnd, slotWork, local, toSend, flagged, done, errors, succ, roots,
-                   failing, sawEmpty>>
+                   failing, soft, sawEmpty>>
 
 DrainEmpty(a) ==
     /\ atask[a] = "drain"
     /\ delayQ = <<>>
     /\ atask' = [atask EXCEPT ![a] = "done"]
     /\ UNCHANGED <<loc, runner, remaining, delayQ, scopeEnd, slotWork, local, toSend, flagged, done,
-                   errors, succ, roots, failing, sawEmpty>>
+                   errors, succ, roots, failing, soft, sawEmpty>>
 
 Quiescent ==
     /\ \A g \in Groups : atask[g] = "done"
@@ -214,7 +218,7 @@ ScopeEnd ==
     /\ Quiescent
     /\ scopeEnd' = TRUE
     /\ UNCHANGED <<loc, runner, atask, remaining, delayQ, slotWork, local, toSend, flagged, done,
-                   errors, succ, roots, failing, sawEmpty>>
+                   errors, succ, roots, failing, soft, sawEmpty>>
 
 TaskStep(g) ==
     \/ ActBegin(g) \/ ActEnd(g) \/ SlotPark(g) \/ SlotPeek(g) \/ SlotSwap(g) \/ TaskStart(g)
@@ -246,7 +250,7 @@ TypeOK ==
     /\ flagged \subseteq Items /\ done \subseteq Items
 
 (* C39/C05: with no errors, the handled set is exactly the closure of the requests. *)
-Closure == (scopeEnd /\ errors = <<>>) => done = Reach
+Closure == (scopeEnd /\ (errors = <<>> \/ failing = {})) => done = Reach
 
 (* Nothing is ever handled that was not requested (GC soundness of the model itself). *)
 DoneReachable == done \subseteq Reach
@@ -275,6 +279,7 @@ Termination == <>scopeEnd
    pushed; a schedule-independent choice would be a function of the SET of errors.  *)
 ReportedLast == IF errors = <<>> THEN "none" ELSE errors[Len(errors)]
 ErrSet == {errors[k] : k \in 1..Len(errors)}
+(* items are strings; TLC cannot order strings, so the MC module supplies a rank *)
 (* Deterministic reporting: the reported error is the least failing item that is reachable without
    passing through a failing item ... which is not what "last pushed" gives; see C26. *)
 
